@@ -89,8 +89,10 @@ def pack_attrs(a, do_spacing=False):
             new_attrs[attr_coords][attr]=False
             if val is not None:
                 new_attrs[attr] = yaml.dump(val)
+    # the order of an attribute's dimensions is the layout of its values
     new_attrs[attr_coords] = yaml.dump(new_attrs[attr_coords],
-                                       default_flow_style=True)
+                                       default_flow_style=True,
+                                       sort_keys=False)
     return new_attrs
 
 
@@ -102,8 +104,10 @@ def unpack_attrs(a):
     attrs_to_ignore = ['spacing', 'name', '_dummy_channel', '_image_scaling']
     for attr in dict_without(attr_ref, attrs_to_ignore):
         if attr_ref[attr]:
+            # a length-1 attribute comes back from the file as a scalar
+            shape = [np.size(coord) for coord in attr_ref[attr].values()]
             new_attrs[attr] = xr.DataArray(
-                a[attr],
+                np.reshape(a[attr], shape),
                 coords=attr_ref[attr],
                 dims=list(attr_ref[attr].keys()))
         elif attr in a:
